@@ -1,11 +1,56 @@
-(* C02 — statements only; proofs are in Exec/*.v. *)
+(* C02 — Commands of a task run one at a time, in order; task calls are synchronous.
+   Statements only; proofs are in Exec/InvPhase.v (sequence), Exec/InvUniq.v (call paths). *)
 From Coq Require Import List Arith Bool String.
 Import ListNotations.
-From TV Require Import Exec.Model Exec.Monitors Exec.Shape Extracted.Facts.
+From TV Require Import Exec.Model Exec.Monitors Exec.InvUniq Exec.InvPhase Exec.Shape Extracted.Facts.
 Local Open Scope string_scope.
 
-(* tie to the source: stage order of RunTask, dedup protocol, error wrapping, deferred calls
-   (facts extracted from task.go / hash.go on every run) *)
+(* tie to the source: stage order of RunTask, dedup protocol, deferred calls templated in the caller *)
 Theorem C02_shape : exec_shape_ok = true.
 Proof. reflexivity. Qed.
 Print Assumptions C02_shape.
+
+(* For every program (any nesting of task calls, deps, defer entries; cyclic ones included), every
+   configuration and every schedule: the events of each execution of a task follow the sequence
+   automaton of Exec/Monitors.v (phase_step): "started" first; then its shell commands in strictly
+   increasing index order, each one announced, started and ended before the next is announced (no
+   entry starts before the previous one has completely finished); the command's probe reports the
+   variable value the call passed (the callee sees the vars of the call); "finished" only after the
+   last command; nothing of the command loop after that. *)
+Theorem C02_sequential :
+  forall (p : prog) (c : cfg) (sched : list choice), mon_C02seq p c (trace (run p c sched)) = true.
+Proof. exact sequence_all_schedules. Qed.
+Print Assumptions C02_sequential.
+
+Theorem C02_sequential_observable :
+  forall p c sched, mon_C02seq p c (filter observable (trace (run p c sched))) = true.
+Proof. exact sequence_observable. Qed.
+Print Assumptions C02_sequential_observable.
+
+(* call paths identify executions: two different activations never share a call path, in every
+   reachable state (what makes "the events of one execution" well defined in an observed trace) *)
+Theorem C02_call_paths_unique :
+  forall p c sched i j x y,
+    get_act (run p c sched) i = Some x -> get_act (run p c sched) j = Some y -> a_path x = a_path y -> i = j.
+Proof. exact paths_unique. Qed.
+Print Assumptions C02_call_paths_unique.
+
+(* The bracket part of C02 (a task: entry returns only after the callee, its deps and its deferred
+   commands went quiet: mon_C02seal, mon_calls, mon_waits) is evaluated on every observed run of the
+   real Executor and enforced by the replay of the run in the machine; its theorem over all
+   schedules is not closed yet (see DESIGN.md, C02: partial). *)
+
+(* non-vacuity: a caller with a nested call; the callee's events lie between the caller's commands *)
+Definition ex_prog : prog :=
+  [ {| t_deps := []; t_cmds := [Shell 0 false; CallC {| c_task := 1; c_var := VConst 5 |}; Shell 0 false];
+       t_run := Always; t_ignore := false; t_internal := false; t_g := dummy_guards |};
+    {| t_deps := []; t_cmds := [Shell 0 false]; t_run := Always; t_ignore := false; t_internal := false; t_g := dummy_guards |} ].
+Definition ex_cfg : cfg :=
+  {| cf_N := None; cf_parallel := false; cf_force := false; cf_forceall := false; cf_yes := false;
+     cf_roots := [ {| c_task := 0; c_var := VConst 0 |} ]; cf_maxcall := 1000 |}.
+Example C02_example :
+  let tr := trace (run ex_prog ex_cfg (ChRoot 0 :: List.concat (repeat [ChStep 0; ChStep 1] 40))) in
+  run_result ex_prog ex_cfg (run ex_prog ex_cfg (ChRoot 0 :: List.concat (repeat [ChStep 0; ChStep 1] 40))) = Some ROk /\
+  mon_C02 ex_prog ex_cfg (filter observable tr) = true /\
+  existsb (fun e => match e with EvProbeBegin [0; 1] 0 5 => true | _ => false end) tr = true.
+Proof. vm_compute. repeat split; reflexivity. Qed.
